@@ -94,3 +94,16 @@ Theorem C01_roundtrip_hypotheses_reachable :
   ci_normal ex_ci /\ NoDup (forest_uids (ci_variants ex_ci)) /\ exists doc, dump_ci ex_ci = Ok doc.
 Proof. exact ci_roundtrip_nonvacuous. Qed.
 Print Assumptions C01_roundtrip_hypotheses_reachable.
+
+(* the hypotheses are decidable: Model/CiNormalB.v computes them, the correspondence evaluates that check on every generated
+   document (the evidence reports how many generated cases the document theorem covers), and the check is sound *)
+From PM Require Import Model.CiNormalB Proofs.CiNormalBProofs.
+Theorem C01_executable_hypothesis_check_is_sound :
+  forall x, ci_normalb x = true -> ci_distinct_uidsb x = true -> ci_normal x /\ NoDup (forest_uids (ci_variants x)).
+Proof. exact ci_applicable_ok. Qed.
+Print Assumptions C01_executable_hypothesis_check_is_sound.
+
+Theorem C01_document_roundtrip_checked :
+  forall x doc, ci_normalb x = true -> ci_distinct_uidsb x = true -> dump_ci x = Ok doc -> load_ci doc = Ok (wp_ci x).
+Proof. exact ci_roundtrip_checked. Qed.
+Print Assumptions C01_document_roundtrip_checked.
